@@ -242,6 +242,25 @@ IO_IDMAPS = [
 ]
 
 
+def _render_g2o_split(spec, idmap):
+    """every edge written as TWO identical lines carrying half the information each (the same physical graph)."""
+    from ..ref import g2o as RG
+
+    full = _render_g2o(spec, idmap).splitlines()
+    out = []
+    k = 0
+    for ln in full:
+        if ln.startswith("EDGE"):
+            e = spec["edges"][k]
+            k += 1
+            tag = "EDGE_SE2" if len(e["z"]) == 3 else "EDGE_SE3:QUAT"
+            half = "%s %d %d %s %s" % (tag, idmap(e["ids"][0]), idmap(e["ids"][1]), " ".join(repr(float(x)) for x in e["z"]), " ".join(repr(0.5 * float(x)) for x in RG.upper_from_sym(e["om"])))
+            out += [half, half]
+        else:
+            out.append(ln)
+    return "\n".join(out) + "\n"
+
+
 def _render_g2o(spec, idmap):
     """my own writer (repr of every double): the same physical graph as a .g2o text under an id relabeling."""
     from ..ref import g2o as RG
@@ -289,18 +308,30 @@ def _eval_io(case):
                 c0 = float(g.calc_chi2())
             GB.optimize(g, tol=0.0, max_iter=2, fix_first_pose=True)
             res.append((mi, c0, {v.id: I.comps(v.pose) for v in I.graph_vertices(g)}, idmap))
+        # edge splitting seen through the loader: two identical half-information lines per edge
+        path = os.path.join(tmp, "split.g2o")
+        with open(path, "w") as f:
+            f.write(_render_g2o_split(spec, IO_IDMAPS[0]))
+        try:
+            g = I.Graph.from_g2o(path)
+            with np.errstate(all="ignore"):
+                c0 = float(g.calc_chi2())
+            GB.optimize(g, tol=0.0, max_iter=2, fix_first_pose=True)
+            res.append(("split", c0, {v.id: I.comps(v.pose) for v in I.graph_vertices(g)}, IO_IDMAPS[0]))
+        except Exception as ex:
+            msgs.append("loading the graph whose edges are written as two identical half-information lines raised %s" % type(ex).__name__)
         if res:
             _, cA, pA, mA = res[0]
             for mi, c0, pp, idmap in res[1:]:
                 if not abs(c0 - cA) <= 1e-11 * (1 + abs(cA)):
-                    msgs.append("id map #%d: chi2 of the loaded graph is %.17g, with plain ids %.17g" % (mi, c0, cA))
+                    msgs.append("description #%s: chi2 of the loaded graph is %.17g, with plain ids / unsplit edges %.17g" % (mi, c0, cA))
                 for v in spec["vertices"]:
                     a, b = pA.get(mA(v["id"])), pp.get(idmap(v["id"]))
                     if b is None:
-                        msgs.append("id map #%d: vertex %r missing after load" % (mi, idmap(v["id"])))
+                        msgs.append("description #%s: vertex %r missing after load" % (mi, idmap(v["id"])))
                         break
                     if G.phys_diff(kind, a, b) > 1e-10:
-                        msgs.append("id map #%d: after 2 iterations vertex %r differs from the plain-id graph by %.3g" % (mi, idmap(v["id"]), G.phys_diff(kind, a, b)))
+                        msgs.append("description #%s: after 2 iterations vertex %r differs from the plain graph by %.3g" % (mi, idmap(v["id"]), G.phys_diff(kind, a, b)))
                         break
     finally:
         shutil.rmtree(tmp, ignore_errors=True)
